@@ -31,7 +31,8 @@ EDGE_UNIVERSES = [
     ["e0", "e1", "x", "y"],
     [0, 1, 5, "e", "10", -2],
     [3, 2, 1, 0, 8],
-    [0, 1, 10**30, 10**309, 2],      # integers beyond float precision / float range are integers too
+    [0, 1, 10**30, 2**53 + 1, 2],    # integers beyond float precision are integers too (10**309, beyond the float range, is
+                                     # drawn by the C04 provenance predicate only: pandas itself cannot hold it)
 ]
 ATTR_KEYS = ["w", "color", "label", "weight", "m"]
 ATTR_VALS = [0, 1, 2, "r", "g", None, [1, 2], {"k": [1]}]
